@@ -27,10 +27,10 @@ func init() {
 }
 
 var lockGuards = map[string]locks.LockID{
-	"engine.ControllerEngine.controllers":  "engine.ControllerEngine.mx",
-	"engine.controller.sources":            "engine.controller.mx",
-	"engine.InformerTrackingCache.active":  "engine.InformerTrackingCache.mx",
-	"xfn.PackagedFunctionRunner.conns":     "xfn.PackagedFunctionRunner.connsMx",
+	"engine.ControllerEngine.controllers": "engine.ControllerEngine.mx",
+	"engine.controller.sources":           "engine.controller.mx",
+	"engine.InformerTrackingCache.active": "engine.InformerTrackingCache.mx",
+	"xfn.PackagedFunctionRunner.conns":    "xfn.PackagedFunctionRunner.connsMx",
 }
 
 type lockWorld struct {
@@ -516,7 +516,9 @@ func c13(c *Ctx) {
 				}
 			}
 		}
-		refs := cfgx.Calls(gc, func(ci ssa.CallInstruction) bool { return strings.HasSuffix(cfgx.CalleeName(ci), ".GetResourceReferences") })
+		refs := cfgx.Calls(gc, func(ci ssa.CallInstruction) bool {
+			return strings.HasSuffix(cfgx.CalleeName(ci), ".GetResourceReferences")
+		})
 		if mu == nil || len(refs) != 1 {
 			c.R.Unknown(load.FuncName(gc)+": used set", c.pos(gc.Pos()), "expected used[...]=true and one GetResourceReferences call")
 		} else {
